@@ -212,8 +212,8 @@ def run(tier, seed):
                 tr = os.path.join(wd, f"strace{pi}.txt")
                 p = subprocess.Popen(["strace", "-f", "-p", str(s.proc.pid), "-e", "trace=openat,open,creat,write,close,rename,renameat,renameat2,unlink,unlinkat", "-o", tr],
                                      stdout=subprocess.DEVNULL, stderr=subprocess.DEVNULL)
-                time.sleep(0.3)
-                wait_saves(2)
+                time.sleep(0.5)
+                wait_saves(3)
                 time.sleep(0.2)
                 p.send_signal(signal.SIGINT)
                 try:
@@ -225,6 +225,8 @@ def run(tier, seed):
                 s.stop()
             ops = parse_strace(tr, ud)
             # one complete save = from its first FCreate up to the op before the next first-file FCreate
+            while ops and ops[0][0] != "FCreate":
+                ops.pop(0)                       # the trace may begin in the middle of a save
             first = ops[0] if ops else None
             saves, cur = [], []
             for o in ops:
